@@ -79,7 +79,11 @@ func randomSchedule(rng *rand.Rand, sys *SSystem, n int) []core.Event {
 		case r < 92:
 			out = append(out, core.Event{"op": "fullsync", "id": 0})
 		default:
-			out = append(out, core.Event{"op": "attach", "id": 0})
+			if rng.Intn(3) == 0 { // the post-attach snapshot answer is on the wire while a session changes
+				out = append(out, core.Event{"op": "attach", "id": 0, "racepush": 1 + rng.Intn(sys.NSess)})
+			} else {
+				out = append(out, core.Event{"op": "attach", "id": 0})
+			}
 		}
 	}
 	return out
@@ -151,6 +155,9 @@ func TestExplore(t *testing.T) {
 		ne2e, e2eSteps = 12, 60
 	}
 	esys := NewE2E(4)
+	if os.Getenv("VERIF_NO_E2E") != "" { // second attempt of a check whose end-to-end finding did not reproduce (lib/fam_hasync.py)
+		ne2e = 0
+	}
 	for c := 0; c < ne2e; c++ {
 		tab, pr := core.Chain(esys, fmt.Sprintf("e2e#%d", c), e2eSchedule(rng, e2eSteps), false)
 		if pr != nil {
@@ -203,14 +210,23 @@ func replay(t *testing.T, file, out string) {
 	bundle := &core.Bundle{}
 	for _, c := range rf.Cases {
 		sys := sysFor(c.System, c.Cfg)
-		tab, pr := core.Chain(sys, sys.Name()+"#"+c.ID, c.Events, false)
-		if pr != nil {
-			st.Panics = append(st.Panics, *pr)
-			continue
+		// an end-to-end schedule runs in real time with the syncers' own goroutines: what it shows depends on
+		// timing, so its replay is a few fresh runs of the schedule (the driver looks for the case id, the last
+		// component of the chain name, in the names of the violating chains)
+		names := []string{sys.Name() + "#" + c.ID}
+		if _, e2e := sys.(*E2ESystem); e2e {
+			names = append(names, sys.Name()+"#again1#"+c.ID, sys.Name()+"#again2#"+c.ID)
 		}
-		bundle.Systems = append(bundle.Systems, tab)
-		st.Chains++
-		st.ChainEvents += len(c.Events)
+		for _, name := range names {
+			tab, pr := core.Chain(sys, name, c.Events, false)
+			if pr != nil {
+				st.Panics = append(st.Panics, *pr)
+				continue
+			}
+			bundle.Systems = append(bundle.Systems, tab)
+			st.Chains++
+			st.ChainEvents += len(c.Events)
+		}
 	}
 	if err := core.WriteJSON(out, "bundle.json", bundle); err != nil {
 		t.Fatal(err)
